@@ -119,8 +119,12 @@ def check_c05(scn):
             kind = e[2]
             if kind == "gr" and e[4] == "SyncGroup" and e[5][0] == 0:
                 sent = e[5][1]
+            elif kind == "subscribe":
+                sent = None  # the application replaced the subscription: assignment() legitimately no longer shows what was sent
             elif kind == "adopt":
-                if sent is None or set(e[4]) != set(sent):
+                if sent is None:
+                    continue
+                if set(e[4]) != set(sent):
                     scn.fail("adoption", {"what": "adopted-differs-from-sent"},
                              f"member c{i} adopted {sorted(e[4])} at t={e[1]} but its last SyncGroup reply carried {sorted(sent) if sent is not None else None}")
             elif kind == "assign-begin":
@@ -171,7 +175,9 @@ def check_c05(scn):
     for i, evs in per.items():
         for e in evs:
             if e[2] == "gr" and e[4] == "JoinGroup" and e[5][0] == 0:
-                joins.setdefault(e[5][1], {})[i] = e[0]
+                # the rebalance that produced generation G is the first successful join into G; a known follower that
+                # rejoins a stable group is answered with the current generation again - that is not a rebalance
+                joins.setdefault(e[5][1], {}).setdefault(i, e[0])
     for gen, members in sorted(joins.items()):
         rev_end = {}
         asg_begin = {}
@@ -276,3 +282,57 @@ def _convergence(scn):
         hb = [e for e in scn.ev if e[2] == "gw" and e[3] == i and e[4] == "Heartbeat" and s1["tick"] < e[0] <= s2["tick"]]
         if not hb:
             scn.fail("convergence", {"what": "heartbeats-stopped"}, f"member c{i} wrote no Heartbeat between t={s1['t']} and t={s2['t']}")
+
+
+# ------------------------------------------------------------------------------------------------------------ C19
+def check_c19(scn):
+    """stop() returns within a bound fixed by the configured timeouts; afterwards nothing the client created is alive,
+    later calls raise ConsumerStoppedError, and a member whose coordinator was reachable has left the group."""
+    import gc
+
+    from vf.scen_group import REBALANCE, SESSION
+
+    p = scn.p
+    # last commit, LeaveGroup and connection teardown may each take one request timeout when brokers are silent
+    bound = 3 * p.get("request_timeout_ms", 4000) / 1000.0 + max(SESSION, REBALANCE) + 1.0
+    loop = scn.world.loop
+    hung = set(getattr(scn, "hung", ()))
+    for i, dur in sorted(scn.stopped.items()):
+        ctx = scn.stop_ctx.get(i, {})
+        mode = getattr(scn, "_mode", None)
+        sig_mode = mode[0] if mode else "healthy"
+        if dur is None:
+            scn.fail("stop-terminates", {"what": "stop-never-returned", "cluster": sig_mode, "joined": (ctx.get("generation") or 0) > 0},
+                     f"member c{i}: stop() called at t={ctx.get('t0')} had not returned {p.get('stop_bound', 30.0)} virtual seconds later "
+                     f"(cluster mode {mode}, generation {ctx.get('generation')}, group {ctx.get('group_state')})")
+            continue
+        if dur > bound:
+            scn.fail("stop-terminates", {"what": "stop-exceeds-bound", "cluster": sig_mode},
+                     f"member c{i}: stop() took {dur:.3f}s of virtual time; bound from the configured timeouts is {bound:.1f}s (cluster mode {mode})")
+        if i in hung:
+            continue
+        left = [x for x in loop.live_things(f"c{i}")]
+        if left:
+            kinds = sorted({k for k, _ in left})
+            scn.fail("stop-leftovers", {"what": "alive-after-stop", "kinds": ",".join(kinds)},
+                     f"member c{i}: after stop() returned these things created by the client are still alive: {left[:4]}")
+        g = scn.cluster.groups.get("g")
+        if (ctx.get("generation") or 0) > 0 and ctx.get("coordinator_up") and ctx.get("f_spent") == 0 and not mode and g is not None:
+            mid = ctx.get("member_id")
+            end_tick = max((e[0] for e in scn.ev if e[2] == "stop-end" and e[3] == i), default=None)
+            wrote_leave = any(e[2] == "gw" and e[3] == i and e[4] == "LeaveGroup" for e in scn.ev)
+            if not wrote_leave and mid in g.members:
+                scn.fail("stop-leaves-group", {"what": "no-leavegroup"},
+                         f"member c{i} ({mid}, generation {ctx.get('generation')}) stopped while its coordinator was reachable but wrote no "
+                         f"LeaveGroup; the coordinator still lists it (stop ended at tick {end_tick})")
+    for e in scn.ev:
+        if e[2] == "after-stop" and e[5] != "ConsumerStoppedError":
+            scn.fail("stop-api", {"what": "call-after-stop", "call": e[4], "outcome": e[5]},
+                     f"member c{e[3]}: {e[4]}() after stop() {e[5]} instead of raising ConsumerStoppedError")
+    gc.collect()
+    for ctx in loop.exc_log:
+        msg = ctx.get("message", "")
+        if "never retrieved" in msg or "Unclosed" in msg or "was destroyed" in msg:
+            exc = ctx.get("exception")
+            scn.fail("stop-leftovers", {"what": "loop-report", "message": msg[:40], "type": type(exc).__name__ if exc else "none"},
+                     f"event loop reported after stop: {msg} {exc!r}")
